@@ -17019,25 +17019,30 @@ func (msg *BGPMessage) Serialize(options ...*MarshallingOption) ([]byte, error) 
 	if err != nil {
 		return nil, err
 	}
-	if msg.Header.Len == 0 {
-		// RFC 8654 Section 4 + Section 6: with the BGP Extended
-		// Message Capability negotiated the cap rises to 65535 for
-		// UPDATE, NOTIFICATION and ROUTE-REFRESH; OPEN and KEEPALIVE
-		// stay at 4096. The caller sets MarshallingOption.ExtendedMessage
-		// only when the session negotiated the capability, so an
-		// uncapped serialise on a peer that did not advertise the
-		// capability still hits the 4096-octet ceiling.
-		maxLen := BGP_MAX_MESSAGE_LENGTH
-		if IsExtendedMessageSerialization(options) {
-			switch msg.Header.Type {
-			case BGP_MSG_UPDATE, BGP_MSG_NOTIFICATION, BGP_MSG_ROUTE_REFRESH:
-				maxLen = BGP_MAX_EXTENDED_MESSAGE_LENGTH
-			}
+	// The header length is a function of the body just serialised. A value left
+	// in the object by an earlier Serialize or by parsing is stale as soon as
+	// the options differ (ADD-PATH) or the message was edited, and trusting it
+	// also skipped the size check below.
+	// RFC 8654 Section 4 + Section 6: with the BGP Extended
+	// Message Capability negotiated the cap rises to 65535 for
+	// UPDATE, NOTIFICATION and ROUTE-REFRESH; OPEN and KEEPALIVE
+	// stay at 4096. The caller sets MarshallingOption.ExtendedMessage
+	// only when the session negotiated the capability, so an
+	// uncapped serialise on a peer that did not advertise the
+	// capability still hits the 4096-octet ceiling.
+	maxLen := BGP_MAX_MESSAGE_LENGTH
+	if IsExtendedMessageSerialization(options) {
+		switch msg.Header.Type {
+		case BGP_MSG_UPDATE, BGP_MSG_NOTIFICATION, BGP_MSG_ROUTE_REFRESH:
+			maxLen = BGP_MAX_EXTENDED_MESSAGE_LENGTH
 		}
-		if BGP_HEADER_LENGTH+len(b) > maxLen {
-			return nil, NewMessageError(0, 0, nil, fmt.Sprintf("too long message length %d", BGP_HEADER_LENGTH+len(b)))
-		}
-		msg.Header.Len = BGP_HEADER_LENGTH + uint16(len(b))
+	}
+	if BGP_HEADER_LENGTH+len(b) > maxLen {
+		return nil, NewMessageError(0, 0, nil, fmt.Sprintf("too long message length %d", BGP_HEADER_LENGTH+len(b)))
+	}
+	if l := BGP_HEADER_LENGTH + uint16(len(b)); msg.Header.Len != l {
+		// (no write when it is unchanged: messages are serialised concurrently)
+		msg.Header.Len = l
 	}
 	h, err := msg.Header.Serialize(options...)
 	if err != nil {
